@@ -48,6 +48,8 @@ class Ledger(object):
         self.got = {"A": [], "B": []}       # messages returned by recv()
         self.ackd = {"A": 0, "B": 0}        # own messages acknowledged
         self.closed = False
+        self.closers = []       # ends that called close(), in order
+        self.unread_at_close = 0
         self.nmsg = 0
 
     # ---- application calls
@@ -278,12 +280,59 @@ class Pair(object):
 
     def close(self, e):
         try:
-            self.ends[e].close()
+            self.do_close(e)
         except envl.WouldBlock:
             pass
+        if not self.led.closed:
+            # unread messages in the closing socket at the time of close()
+            self.led.unread_at_close = \
+                self.led.tx[OTHER[e]] - len(self.led.got[e])
         self.led.closed = True
+        self.led.closers.append(e)
         self.sx.reach("closed")
         return "close"
+
+    def do_close(self, e):
+        self.ends[e].close()
+
+    def burst(self, e):
+        """up to 3 messages, each sent as soon as the window allows and
+        carried over the link before the peer reads anything"""
+        out = []
+        for j in range(3):
+            r = self.send(e, 1)
+            out.append(r)
+            if r != "sent":
+                break
+            self.transfer(e)
+        return out
+
+    def finish_close(self):
+        """one end closed, the other did not: everything that end's send()
+        accepted before is read by the peer before it sees the end of the
+        connection (I PDUs leave before the DISC)"""
+        led, sx = self.led, self.sx
+        if len(led.closers) != 1:
+            return
+        e = led.closers[0]
+        p = OTHER[e]
+        for rnd in range(8):
+            moved = 0
+            for x in "AB":
+                n = 0
+                while self.transfer(x):
+                    moved += 1
+                    n += 1
+                    if n > 40:
+                        sx.check(False, "connection-does-not-quiesce")
+            while self.recv(p) == "msg":
+                moved += 1
+            if not moved:
+                break
+        if len(led.got[p]) != len(led.sent[e]):
+            sx.check(False, "accepted-message-lost-by-close" + (
+                ":closer-had-unread-messages" if led.unread_at_close else ""))
+        sx.reach("close:all-delivered")
 
     def acks(self, e):
         """poll('acks'): true at most once per acknowledged message"""
@@ -317,6 +366,8 @@ class Pair(object):
             return self.set_busy(e)
         if k == "close":
             return self.close(e)
+        if k == "burst":
+            return self.burst(e)
         if k == "acks":
             return self.acks(e)
         raise ValueError(name)
@@ -341,8 +392,9 @@ OPS_MORE = OPS_CORE + ["busyB", "sendbigA", "closeA"]
 OPS_ALL = OPS_MORE + ["sendwaitA", "acksA", "busyA", "closeB", "sendbigB"]
 OPS_ONEWAY = ["sendA", "xferA", "xferB", "recvB"]
 OPS_ACKS = ["xferB", "acksA", "sendA", "xferA", "recvB"]
+OPS_CLOSE = ["sendA", "xferA", "recvB", "closeA", "sendB", "xferB"]
 TABLES = {"core": OPS_CORE, "more": OPS_MORE, "all": OPS_ALL,
-          "oneway": OPS_ONEWAY, "acks": OPS_ACKS}
+          "oneway": OPS_ONEWAY, "acks": OPS_ACKS, "close": OPS_CLOSE}
 
 
 def run_history(sx, pair, prefix, k, table):
@@ -364,6 +416,8 @@ def run_history(sx, pair, prefix, k, table):
         pair.drain()
         pair.led.state(pair.ends)
         pair.led.complete()
+    else:
+        pair.finish_close()
     return trace
 
 
@@ -377,6 +431,73 @@ def dlc_pair(sx, prefix, k, table, warm):
     pair = Pair(sx, {"A": A, "B": B}, led)
     for name in warm:
         pair.op(name)
+    return run_history(sx, pair, prefix, k, table)
+
+
+def reset(sx):
+    envl.WhileWaiting.fn = None
+
+
+def wire(p):
+    return pdu.decode(pdu.encode(p))
+
+
+def handshake_pair(sx, prefix, k, table, s0sym):
+    """the pair is produced by the real connect()/listen()/accept() code: A
+    (SO_RCVBUF = rwA) connects; while its connect() sleeps, the CONNECT PDU
+    reaches the listening socket of B (SO_RCVBUF = rwB), accept() answers
+    with CC, the CC reaches A and connect() resumes.  The ledger is
+    initialised from what each side ANNOUNCED on the wire."""
+    rwA, rwB = sx.int("rwA", 1, 15), sx.int("rwB", 1, 15)
+    miuA = sx.pick("miuA", [128, 131])
+    miuB = sx.pick("miuB", [128, 2175])
+    A = tco.DataLinkConnection(128, 1)
+    A.setsockopt(nfc.llcp.SO_RCVBUF, rwA)
+    A.setsockopt(nfc.llcp.SO_RCVMIU, miuA)
+    A.bind(32)
+    L = tco.DataLinkConnection(128, 1)
+    L.setsockopt(nfc.llcp.SO_RCVBUF, rwB)
+    L.setsockopt(nfc.llcp.SO_RCVMIU, miuB)
+    L.bind(16)
+    L.listen(1)
+    seen = {}
+
+    def link():
+        c = wire(A.dequeue(2175, 0))
+        seen["CONNECT"] = c
+        L.enqueue(c)
+        seen["B"] = L.accept()
+        cc = wire(L.dequeue(2175, 0))
+        seen["CC"] = cc
+        A.enqueue(cc)
+    envl.while_waiting(link)
+    A.connect(16)
+    B = seen["B"]
+    c, cc = seen["CONNECT"], seen["CC"]
+    if c.name != "CONNECT" or cc.name != "CC":
+        sx.check(False, "handshake-pdus")
+    sx.check_all([(c.rw == rwA, "handshake:connect-announces-other-window"),
+                  (cc.rw == rwB, "handshake:cc-announces-other-window"),
+                  (c.miu == miuA, "handshake:connect-announces-other-miu"),
+                  (cc.miu == miuB, "handshake:cc-announces-other-miu"),
+                  (A.send_win == cc.rw, "handshake:connector-send-window"),
+                  (B.send_win == c.rw, "handshake:acceptor-send-window"),
+                  (A.send_miu == cc.miu, "handshake:connector-send-miu"),
+                  (B.send_miu == c.miu, "handshake:acceptor-send-miu")])
+    if not (A.state.ESTABLISHED and B.state.ESTABLISHED):
+        sx.check(False, "handshake:not-established")
+    sx.check(A.peer == 16 and B.peer == 32 and B.addr == 16,
+             "handshake-addresses")
+    sx.reach("handshake-pair-established")
+    rw = {"A": c.rw, "B": cc.rw}
+    miu = {"A": c.miu, "B": cc.miu}
+    s0 = {"A": 0, "B": 0}
+    if s0sym:
+        s0 = {"A": sx.int("s0A", 0, 15), "B": sx.int("s0B", 0, 15)}
+        A.send_cnt = A.send_ack = B.recv_cnt = B.recv_ack = s0["A"]
+        B.send_cnt = B.send_ack = A.recv_cnt = A.recv_ack = s0["B"]
+    led = Ledger(sx, rw, miu, s0)
+    pair = Pair(sx, {"A": A, "B": B}, led)
     return run_history(sx, pair, prefix, k, table)
 
 
@@ -401,14 +522,8 @@ class LlcPair(Pair):
     def deliver(self, e, q):
         self.llcs[e].dispatch(q)
 
-    def close(self, e):
-        try:
-            self.llcs[e].close(self.ends[e])
-        except envl.WouldBlock:
-            pass
-        self.led.closed = True
-        self.sx.reach("closed")
-        return "close"
+    def do_close(self, e):
+        self.llcs[e].close(self.ends[e])
 
 
 def pump(src, dst):
@@ -423,8 +538,9 @@ def pump(src, dst):
 
 
 def llc_pair(sx, prefix, k, table, agf):
-    """real passive/active open over collect()/dispatch(); the tail of
-    connect() (which sleeps until CC arrives) is completed by hand"""
+    """real passive/active open over collect()/dispatch(): while connect()
+    of B sleeps, the link carries CONNECT to A, A accepts, CC comes back and
+    connect() resumes"""
     rw = {"A": sx.int("rwA", 0, 15), "B": sx.int("rwB", 0, 15)}
     s0 = {"A": sx.int("s0A", 0, 15), "B": sx.int("s0B", 0, 15)}
     link = sx.int("link_miu", 128, 2175)
@@ -442,24 +558,20 @@ def llc_pair(sx, prefix, k, table, agf):
     sb = LB.socket(nfc.llcp.DATA_LINK_CONNECTION)
     LB.setsockopt(sb, nfc.llcp.SO_RCVBUF, rw["B"])
     LB.setsockopt(sb, nfc.llcp.SO_RCVMIU, 300)
-    try:
-        LB.connect(sb, b"urn:nfc:sn:c05")
-        sx.check(False, "setup:connect-did-not-wait")
-    except envl.WouldBlock:
-        pass
-    sx.check(pump(LB, LA) == ["CONNECT"], "setup:connect-pdu")
-    sa = LA.accept(ls)
-    sx.check(pump(LA, LB) == ["CC"], "setup:cc-pdu")
-    # what connect() does once CC is there
-    cc = sb.recv_queue.popleft()
-    sx.check(cc.name == "CC", "setup:cc-queued")
-    sb.peer = cc.ssap
-    sb.recv_buf = sb.recv_win
-    sb.send_miu = cc.miu
-    sb.send_win = cc.rw
-    sb.state.ESTABLISHED = True
-    if sb.send_miu > LB.cfg['send-miu']:
-        sb.send_miu = LB.cfg['send-miu']
+    seen = {}
+
+    def run_loops():
+        # what the two run loops do while connect() sleeps
+        seen["c"] = pump(LB, LA)
+        seen["sa"] = LA.accept(ls)
+        seen["cc"] = pump(LA, LB)
+    envl.while_waiting(run_loops)
+    LB.connect(sb, b"urn:nfc:sn:c05")
+    sx.check(seen["c"] == ["CONNECT"], "setup:connect-pdu")
+    sx.check(seen["cc"] == ["CC"], "setup:cc-pdu")
+    sa = seen["sa"]
+    if not (sa.state.ESTABLISHED and sb.state.ESTABLISHED):
+        sx.check(False, "handshake:not-established")
     # negotiated parameters as the handshake left them
     sx.check(sx.all([sa.send_win == rw["B"], sb.send_win == rw["A"],
                      sa.recv_win == rw["A"], sb.recv_win == rw["B"]]),
@@ -507,11 +619,24 @@ def partitions(tier):
             add("dlc_pair", [a], 2, "acks", warm=["sendA", "xferA", "recvB"])
         for a in OPS_CORE:
             add("dlc_pair", [a], 2, "core", warm=LAG)
+        # real handshake; burst from the acceptor fills the connector's window
+        for a in OPS_CORE + ["burstB", "burstA", "closeA"]:
+            add("handshake_pair", [a], 1, "core", s0sym=0)
+        add("handshake_pair", ["burstB", "burstB"], 1, "core", s0sym=1)
+        add("llc_pair", ["burstA"], 1, "core", agf=1)
+        add("llc_pair", ["burstA", "recvB"], 1, "core", agf=0)
+        # send, close, and what the peer still reads
+        for a in ("sendA", "sendwaitA"):
+            add("dlc_pair", [a], 2, "close", warm=[])
+            add("handshake_pair", [a, "closeA"], 1, "core", s0sym=1)
+        add("dlc_pair", ["sendA", "sendA", "closeA"], 2, "core", warm=[])
+        add("llc_pair", ["sendA", "sendA", "closeA"], 1, "core", agf=1)
+        add("llc_pair", ["sendA", "sendA", "closeA"], 1, "core", agf=0)
         add("llc_pair", LAG + ["xferB"], 1, "core", agf=1)
         add("llc_pair", LAG + ["xferB"], 1, "core", agf=0)
         for a in OPS_CORE:
             add("llc_pair", [a], 2, "core", agf=1)
-            add("llc_pair", [a], 2, "core", agf=0)
+            add("llc_pair", [a], 1, "core", agf=0)
         for b in ("closeA", "busyB", "sendbigA"):
             add("llc_pair", ["sendA", b], 1 if b == "sendbigA" else 2, "core", agf=1)
     else:
@@ -524,6 +649,18 @@ def partitions(tier):
         for a in ("xferB", "sendA", "recvB"):
             add("llc_pair", LAG + [a], 3, "core", agf=1)
             add("llc_pair", LAG + [a], 3, "core", agf=0)
+        for a in OPS_CORE + ["burstB", "burstA", "closeA"]:
+            for b in OPS_CORE + ["burstB"]:
+                add("handshake_pair", [a, b], 2, "core", s0sym=1)
+        for a in ("burstA", "burstB"):
+            add("llc_pair", [a], 3, "core", agf=1)
+            add("llc_pair", [a], 3, "core", agf=0)
+        for a in OPS_CLOSE:
+            for b in OPS_CLOSE:
+                add("dlc_pair", [a, b], 3, "close", warm=[])
+        for a in ("sendA", "sendwaitA", "sendB"):
+            add("llc_pair", [a, "sendA", "closeA"], 2, "core", agf=1)
+            add("llc_pair", [a, "sendA", "closeA"], 2, "core", agf=0)
         for a in OPS_CORE:
             for b in OPS_CORE:
                 add("dlc_pair", [a, b], 3, "core", warm=[])
@@ -545,9 +682,10 @@ def partitions(tier):
 
 MUST_REACH = ["send:accepted", "send:EMSGSIZE", "send:window-full",
               "recv:message", "recv:nothing", "wire:I", "wire:RR", "wire:RNR",
-              "wire:ack", "drained", "closed", "llc-pair-established", "acks:yes"]
+              "wire:ack", "drained", "closed", "llc-pair-established", "acks:yes",
+              "handshake-pair-established", "close:all-delivered"]
 BOUNDS = {
-    "quick": "DataLinkConnection pair: RW of both ends symbolic 0..15, initial sequence variables of both directions symbolic 0..15, connection MIU of both ends symbolic 128..2175; histories of up to 4 operations from the 6 core ones {send on A/B, recv on A/B, link exchange A->B / B->A}, up to 3 from 9 (adds 129-octet send, receiver-busy toggle on B, close on A), up to 3 core operations after a 4-operation warm-up, up to 3 from {xfer, poll('acks'), send, recv} after a 3-operation warm-up, up to 3 core operations after the 5-operation 'lagging reader' warm-up (two messages arrived, one taken); afterwards link exchanges and reads until quiescent.  LogicalLinkController pair: real listen/connect/accept handshake over collect()/dispatch(), link MIU symbolic 128..2175, aggregation on/off, up to 3 core operations",
+    "quick": "DataLinkConnection pair: RW of both ends symbolic 0..15, initial sequence variables of both directions symbolic 0..15, connection MIU of both ends symbolic 128..2175; histories of up to 4 operations from the 6 core ones {send on A/B, recv on A/B, link exchange A->B / B->A}, up to 3 from 9 (adds 129-octet send, receiver-busy toggle on B, close on A), up to 3 core operations after a 4-operation warm-up, up to 3 from {xfer, poll('acks'), send, recv} after a 3-operation warm-up, up to 3 core operations after the 5-operation 'lagging reader' warm-up (two messages arrived, one taken); afterwards link exchanges and reads until quiescent; a pair produced by the real connect()/listen()/accept() handshake with SO_RCVBUF of both sides symbolic 1..15 and receive MIUs from {128,131}x{128,2175}, ledger initialised from the announced CONNECT/CC values, up to 3 operations including bursts of up to 3 messages in either direction; after close() on one end: link exchanges and peer reads until the end of the connection, everything accepted before close() delivered.  LogicalLinkController pair: real listen/connect/accept handshake over collect()/dispatch(), link MIU symbolic 128..2175, aggregation on/off, up to 3 core operations",
     "thorough": "as quick with up to 5 core operations (also after two warm-up prefixes), up to 6 of the one-direction operations {send A, xfer A, xfer B, recv B}, 2 fixed (14 x 9; adds blocking send, poll('acks'), busy on A, close on B, 129-octet send on B) + 2 from 9, up to 5 of the acknowledgement-counter operations, LLC pair histories of up to 4 operations",
 }
 OUTSIDE = ["real thread schedules of blocking application calls against the two link run loops (the blocking half of the property's quantifier): a call that reaches Condition.wait() is an event here, not a sleeping thread",
@@ -556,7 +694,7 @@ OUTSIDE = ["real thread schedules of blocking application calls against the two 
            "behaviour after close() beyond: no wrong or reordered message is delivered"]
 ASSUMPTIONS = ["env.llcp: Condition.wait() without time-out raises WouldBlock, wait(timeout) times out at once",
                "DLC pair: sockets are placed in ESTABLISHED state by setting the fields connect()/accept() set; the LLC pair layer produces the same state through the real handshake and checks the negotiated values",
-               "LLC pair: the tail of connect() after the CC PDU arrived is replayed by the harness (connect() sleeps in recv())",
+               "connect() is run for real: while it sleeps in recv() the harness performs the link exchange (CONNECT over, accept(), CC back) inside the wait and the call resumes (env.llcp.while_waiting) - one legal schedule of application thread vs. link thread",
                "initial sequence variables are set directly to a symbolic offset (state after that many acknowledged exchanges)"]
 
 LIMITS = {"quick": dict(max_time=150), "thorough": dict(max_time=1500)}
